@@ -725,25 +725,35 @@ class Engine:
         return self.ev(e.operand, st, fr, cont)
 
     def ev_BoolOp(self, e, st, fr, k):
-        # short-circuit: the right operands (and their safety obligations) are evaluated under
-        # the left ones.  The guards are local to this expression and dropped afterwards.
+        # short-circuit: the right operands (and their safety obligations) are evaluated under the left ones.
+        # The guards are local to this expression; facts learnt from callees while evaluating an operand are kept,
+        # conditioned on the guards under which that operand is evaluated at all.
         is_and = isinstance(e.op, ast.And)
         n0 = len(st.pc)
 
-        def finish(res, s):
+        def finish(res, s, guard_pos):
             s2 = s.fork()
-            s2.pc = s2.pc[:n0]
+            kept = list(s2.pc[:n0])
+            guards = []
+            for i in range(n0, len(s2.pc)):
+                h = s2.pc[i]
+                if i in guard_pos:
+                    guards.append(h)
+                else:
+                    kept.append(z3.Implies(z3.And(*guards), h) if guards else h)
+            s2.pc = kept
             return k(res, s2)
 
-        def go(i, s, acc):
+        def go(i, s, acc, guard_pos):
             if i == len(e.values):
-                return finish(z3.And(*acc) if is_and else z3.Or(*acc), s)
+                return finish(z3.And(*acc) if is_and else z3.Or(*acc), s, guard_pos)
 
             def cont(v, s1):
                 b = self.truth(v)
-                return go(i + 1, s1.assume(b if is_and else z3.Not(b)), acc + [b])
+                s2 = s1.assume(b if is_and else z3.Not(b))
+                return go(i + 1, s2, acc + [b], guard_pos | {len(s2.pc) - 1})
             return self.ev(e.values[i], s, fr, cont)
-        return go(0, st, [])
+        return go(0, st, [], frozenset())
 
     def ev_IfExp(self, e, st, fr, k):
         def cont(c, s):
@@ -810,9 +820,9 @@ class Engine:
         if (a is PNONE and num_b) or (b is PNONE and num_a):
             return z3.BoolVal(False)
         if isinstance(a, Opq) and num_b and not _is_boolish(b):
-            return v2int(a.t) == self.to_int(b)
+            return a.t == int2v(self.to_int(b))
         if isinstance(b, Opq) and num_a and not _is_boolish(a):
-            return self.to_int(a) == v2int(b.t)
+            return int2v(self.to_int(a)) == b.t
         if isinstance(a, Ref) and isinstance(b, Ref):
             return z3.BoolVal(a.base == b.base)
         if isinstance(a, Ref) and b is PNONE or isinstance(b, Ref) and a is PNONE:
@@ -868,6 +878,8 @@ class Engine:
             return z3.Or(x, y) if isinstance(op, ast.BitOr) else z3.And(x, y)
         if isinstance(op, ast.Add) and isinstance(a, (list, tuple)) and isinstance(b, (list, tuple)):
             return type(a)(list(a) + list(b))
+        if isinstance(op, (ast.Add, ast.Mod)) and (isinstance(a, str) or isinstance(b, str)):
+            return Opq(self.fresh("string", "V"))     # string concatenation / formatting: an opaque string
         if isinstance(op, ast.Add) and ((isinstance(a, (list, tuple)) and isinstance(b, Opq)) or
                                         (isinstance(b, (list, tuple)) and isinstance(a, Opq))):
             return Opq(z3.Function("fn:concat", V, V, V)(self.to_v(a), self.to_v(b)))
@@ -1519,9 +1531,10 @@ class Engine:
                 n_vcs = len(self.vcs)
                 try:
                     self.ex(branch, s1.assume(cond), fr, k)
-                except Unsupported:
+                except Unsupported as ex_:
                     # a construct outside the subset on a path that cannot be taken is harmless
-                    if not self.infeasible(s1.assume(cond)):
+                    if getattr(ex_, "feasible_checked", False) or not self.infeasible(s1.assume(cond)):
+                        ex_.feasible_checked = True   # an enclosing (weaker) path condition is feasible as well
                         raise
                     del self.vcs[n_vcs:]
         return self.ev(s.test, st, fr, cont)
